@@ -599,6 +599,17 @@ func genOverlay(cf *ContractFile) (string, error) {
 			body.WriteString("func govcIfaceOf(v reflect.Value) interface{} { return v.Interface() }\n")
 			body.WriteString("func govcRvmt(v reflect.Value) int { return 0 }\nfunc govcRvfld(v reflect.Value) int { return 0 }\nfunc govcRvobj(v reflect.Value) int { return 0 }\nfunc govcRvcls(v reflect.Value) int { return 0 }\nfunc govcRvttag(v reflect.Value) int { return 0 }\nfunc govcRvstate(v reflect.Value) int { return 0 }\nfunc govcRvwid(v reflect.Value) int { return 0 }\nfunc govcRvecls(v reflect.Value) int { return 0 }\nfunc govcRvewid(v reflect.Value) int { return 0 }\nfunc govcRvvalid(v reflect.Value) bool { return v.IsValid() }\nfunc govcRvismsg(v reflect.Value, m int) bool { return true }\n")
 			body.WriteString("func govcMsgOf[T any](v reflect.Value) T { return v.Interface().(T) }\n")
+			body.WriteString("func govcRvint(v reflect.Value) int { return 0 }\nfunc govcRvflt(v reflect.Value) float64 { return 0 }\nfunc govcRvfieldof(v reflect.Value, i int) reflect.Value { return v }\nfunc govcRvcell(v reflect.Value) int { return 0 }\n")
+		}
+	}
+	{
+		hasT, hasR := false, false
+		for _, im := range cf.Imports {
+			hasT = hasT || strings.Trim(im, `"`) == "time"
+			hasR = hasR || strings.Trim(im, `"`) == "reflect"
+		}
+		if hasT && hasR {
+			body.WriteString("func govcRvtime(v reflect.Value) time.Time { return time.Time{} }\nfunc govcRvtimeat(v reflect.Value, c int) time.Time { return time.Time{} }\n")
 		}
 	}
 	for _, d := range cf.Decls {
@@ -759,7 +770,7 @@ func genOverlay(cf *ContractFile) (string, error) {
 	return b.String(), nil
 }
 
-var reBuiltin = regexp.MustCompile(`\b(old|ite|fresh|same|isNaN|ifaceOf|samebase|offset|isEOF|isUEOF|iserr|isLE|isBE|ifaceobj|allfields|rvmt|rvfld|rvobj|rvcls|rvttag|rvstate|rvwid|rvecls|rvewid|rvvalid|rvismsg|tsec|tns|tzoff|tzid|rvNumField|rvClass|rvWidth|rvEClass|rvEWidth|rvTypeTag)\(`)
+var reBuiltin = regexp.MustCompile(`\b(old|ite|fresh|same|isNaN|ifaceOf|samebase|offset|isEOF|isUEOF|iserr|isLE|isBE|ifaceobj|allfields|rvmt|rvfld|rvobj|rvcls|rvttag|rvstate|rvwid|rvecls|rvewid|rvvalid|rvismsg|rvtimeat|rvcell|rvtime|rvint|rvflt|rvfieldof|tsec|tns|tzoff|tzid|rvNumField|rvClass|rvWidth|rvEClass|rvEWidth|rvTypeTag)\(`)
 var reTypeIs = regexp.MustCompile(`\btypeis\[`)
 var reMsgOf = regexp.MustCompile(`\bmsgOf\[`)
 var reTypeTag = regexp.MustCompile(`\btypetag\[`)
@@ -836,6 +847,18 @@ func rewriteBuiltins(s string) string {
 			return "govcRVTypeTag("
 		case "samebase(":
 			return "govcSameBase("
+		case "rvtime(":
+			return "govcRvtime("
+		case "rvtimeat(":
+			return "govcRvtimeat("
+		case "rvcell(":
+			return "govcRvcell("
+		case "rvint(":
+			return "govcRvint("
+		case "rvflt(":
+			return "govcRvflt("
+		case "rvfieldof(":
+			return "govcRvfieldof("
 		case "offset(":
 			return "govcOffset("
 		case "ifaceOf(":
